@@ -109,58 +109,10 @@ pub fn c13_w_either_body<S: Src>(s: &mut S) {
     wrappers::<6, S>(s)
 }
 
-/// E = t0 E t1 | t2 with depth output: Some(depth) iff x = t0^d t2 t1^d
-fn nest_oracle(x: &[u8], t: [u8; 3], pos: usize, fuel: usize) -> Option<(u8, usize)> {
-    if fuel == 0 {
-        return None;
-    }
-    if pos < x.len() && x[pos] == t[0] {
-        if let Some((d, p)) = nest_oracle(x, t, pos + 1, fuel - 1) {
-            if p < x.len() && x[p] == t[1] {
-                return Some((d + 1, p + 1));
-            }
-        }
-    }
-    if pos < x.len() && x[pos] == t[2] {
-        return Some((0, pos + 1));
-    }
-    None
-}
-
-/// @harness props=C13:T,C11:T,C20:T n=3 err=Cheap timeout=2400
-/// @shape recursive + memoized parser value reused: E = (t0 E t1).memoized() | t2 (declare/define) ; parse(x1) then parse(x2)   vs   the unrolled grammar on x2
-/// @symbolic t0..t2: u8; x1 of length 0..=1, x2 of length 0..=3
-/// @aims the memo table and the recursive cell carry nothing from one parse to the next (the first parse may fail half-way, leaving in-progress markers and cached failures behind)
-pub fn c13_recursive_memo_body<S: Src>(s: &mut S) {
-    let t = [s.u8(), s.u8(), s.u8()];
-    let i1 = Inp::<1>::any(s);
-    let i2 = Inp::<3>::any(s);
-    let (x1, x2) = (i1.get(), i2.get());
-    // (declare/define rather than recursive(): same `Recursive::go`, but a sized Rc handle — see hand/c12.rs)
-    let mut p = chumsky::recursive::Recursive::declare();
-    p.define(
-        p.clone()
-            .delimited_by(just::<u8, I, X>(t[0]), just::<u8, I, X>(t[1]))
-            .map(|d: Tr| Tr::tok(d.low().wrapping_add(1)))
-            .memoized()
-            .or(just::<u8, I, X>(t[2]).to(Tr::tok(0))),
-    );
-    let first = p.parse(x1);
-    contract(&first);
-    drop(first);
-    let second = p.parse(x2);
-    contract(&second);
-    let want = match nest_oracle(x2, t, 0, 4) {
-        Some((d, q)) if q == x2.len() => Some(Tr::tok(d)),
-        _ => None,
-    };
-    check!("C13:second-parse-equals-fresh-parser", same(&second.output().copied(), &want));
-    cover!("cover:accept-second-nested", want == Some(Tr::tok(1)));
-    cover!("cover:first-parse-failed-half-way", x1.len() == 1 && x1[0] == t[0] && want.is_some());
-    // (the drop of a recursive parser is decided under C12: CBMC unrolls its Rc drop glue to the recursion bound)
-    drop(second);
-    core::mem::forget(p);
-}
+// (A recursive + memoized parser value reused for a second parse was tried in three sizes — down to a first input of
+// at most 1 token and a second of at most 2 — and runs out of memory at 12 GB each time: two full parses through
+// `Recursive::go` + `Memoized::go` + the table in one query. Not claimed. The memo table and the recursion cell are
+// covered separately: the table lives in the per-parse `InputOwn` (C11 harnesses), the cell in C12.)
 
 crate::harnesses! {
     c13_history [5] = c13_history_body;
@@ -171,7 +123,4 @@ crate::harnesses! {
     c13_w_arc [5] = c13_w_arc_body;
     c13_w_boxed [5] = c13_w_boxed_body;
     c13_w_either [5] = c13_w_either_body;
-}
-crate::harnesses_stub_caller! {
-    c13_recursive_memo [8] = c13_recursive_memo_body;
 }
